@@ -53,6 +53,7 @@ type State struct {
 	inputs  []*Input // symbolic inputs created on this path (label order)
 	labelN  map[string]int
 	ghost   map[string]Value
+	ufApps  []*UFApp
 }
 
 type Input struct {
@@ -77,6 +78,7 @@ func (st *State) clone() *State {
 		covers: map[string]bool{},
 		labelN: map[string]int{},
 		ghost:  map[string]Value{},
+		ufApps: append([]*UFApp(nil), st.ufApps...),
 	}
 	for k, v := range st.heap {
 		n.heap[k] = v
@@ -194,6 +196,9 @@ type Engine struct {
 	knownOpen map[string]bool
 	lowerApps map[string]bool
 	errStringPtr types.Type
+	ufFacts   []*Term
+	ufFactSet map[string]bool
+	ipStrOrigin map[string]ipOrigin
 }
 
 type HarnessCfg struct {
